@@ -154,15 +154,18 @@ func (p *gcpPicker) detectUnresponsive(ctx context.Context, scRef *subConnRef, c
 		return
 	}
 
-	if callStarted.Before(scRef.getLastResp()) {
+	lastResp := scRef.getLastResp()
+	if callStarted.Before(lastResp) {
 		return
 	}
 
 	// Increment deadline exceeded calls and check if there were enough deadline
 	// exceeded calls and enough time passed since last response to trigger refresh.
 	if scRef.deCallsInc() >= p.gb.cfg.GetChannelPool().GetUnresponsiveCalls() &&
-		scRef.getLastResp().Before(time.Now().Add(-p.unresponsiveWindow(scRef))) {
-		p.gb.refresh(scRef)
+		lastResp.Before(time.Now().Add(-p.unresponsiveWindow(scRef))) {
+		// The decision is made without the balancer lock: it holds only as long as
+		// lastResp is still the subConnRef's last response time.
+		p.gb.refreshSince(scRef, lastResp)
 	}
 }
 
